@@ -1635,6 +1635,9 @@ fn supervisor(tier: &str, seed: u64, cases_path: &str, outdir: &str, nworkers: u
 }
 
 fn main() {
+    // a process that dies (allocation failure, stack overflow) must die at once: symbolising a
+    // backtrace costs more CPU than the budget of a small job and would be recorded as Timeout
+    std::env::set_var("RUST_BACKTRACE", "0");
     let args: Vec<String> = std::env::args().collect();
     match args.get(1).map(|s| s.as_str()) {
         Some("run") => supervisor(&args[2], args[3].parse().expect("seed"), &args[4], &args[5], args[6].parse().expect("n")),
